@@ -18,7 +18,7 @@ func init() { Register(c09{}) }
 func (c09) ID() string    { return "C09" }
 func (c09) Level() string { return "fault_enumeration" }
 func (c09) Rule() string {
-	return "workload = seeded writer history (shape x page size x codec x batch grammar); cases = for EVERY sink call k of the fault-free run: err0 transient (always) and torn/err0-sticky/torn-sticky (quick: seeded 1-in-4 of k, thorough: every k). A case is non-trivial when its fault actually fired (the sink returned the injected error); distinct = distinct (workload digest, k, kind)."
+	return "workload = seeded writer history (shape x page size x codec x batch grammar); cases = for EVERY sink call k of the fault-free run: err0 transient (always) and torn/err0-sticky/torn-sticky (quick: seeded 1-in-4 of k, thorough: every k; 1% of thorough workloads are of the large class - pages of 100..1200 records - and sample these kinds 1-in-4). A case is non-trivial when its fault actually fired (the sink returned the injected error); distinct = distinct (workload digest, k, kind)."
 }
 func (c09) Assumptions() []string {
 	return []string{
@@ -42,6 +42,7 @@ func c09Opts(tier string) core.HistOpts {
 	if tier == "thorough" {
 		o.MaxOps = 80
 		o.BigPagePct = 5
+		o.LargePct = 1
 	}
 	return o
 }
@@ -93,11 +94,14 @@ func (p c09) Run(runseed uint64, tier string, acc *Acc) []*core.Violation {
 	acc.MixFP(digest)
 	acc.Inc("codec/" + w.Codec)
 	acc.Inc("shape/" + w.Shape)
+	if w.Large {
+		acc.Inc("class/large")
+	}
 	var vios []*core.Violation
 	nontrivial := 0
 	for k := 1; k <= n; k++ {
 		kinds := []core.SinkFault{{K: k, Kind: "err0"}}
-		if tier == "thorough" || r.Chance(1, 4) {
+		if (tier == "thorough" && !w.Large) || r.Chance(1, 4) {
 			kinds = append(kinds,
 				core.SinkFault{K: k, Kind: "torn", Arg: r.Intn(1 << 16)},
 				core.SinkFault{K: k, Kind: "err0", Sticky: true},
